@@ -36,6 +36,8 @@ type Directory struct {
 	end    zipEndRecord
 }
 
+var errTruncatedDir = errors.New("zip central directory is truncated")
+
 // Return the offset of the zip central directory
 func FindDirectory(r io.ReaderAt, size int64) (int64, error) {
 	pos := size - directoryEndLen - directory64LocLen
@@ -87,13 +89,21 @@ func checkDirLoc(loc, size int64) (int64, error) {
 // Read a zip from a ReaderAt, with a separate copy of the central directory
 func ReadWithDirectory(r io.ReaderAt, size int64, cd []byte) (*Directory, error) {
 	dirLoc := size - int64(len(cd))
+	if dirLoc < 0 {
+		return nil, errors.New("zip central directory is larger than the file")
+	}
 	files := make([]*File, 0)
 	for {
-		if binary.LittleEndian.Uint32(cd) != directoryHeaderSignature {
+		if len(cd) < 4 || binary.LittleEndian.Uint32(cd) != directoryHeaderSignature {
 			break
 		}
 		var hdr zipCentralDir
-		_ = binary.Read(bytes.NewReader(cd), binary.LittleEndian, &hdr)
+		if err := binary.Read(bytes.NewReader(cd), binary.LittleEndian, &hdr); err != nil {
+			return nil, errTruncatedDir
+		}
+		if directoryHeaderLen+int(hdr.FilenameLen)+int(hdr.ExtraLen)+int(hdr.CommentLen) > len(cd) {
+			return nil, errTruncatedDir
+		}
 		f := &File{
 			CreatorVersion:   hdr.CreatorVersion,
 			ReaderVersion:    hdr.ReaderVersion,
@@ -155,16 +165,25 @@ func ReadWithDirectory(r io.ReaderAt, size int64, cd []byte) (*Directory, error)
 		DirLoc: dirLoc,
 		r:      r,
 	}
+	if len(cd) < 4 {
+		return nil, errors.New("expected end record")
+	}
 	rd := bytes.NewReader(cd)
 	switch binary.LittleEndian.Uint32(cd) {
 	case directory64EndSignature:
-		_ = binary.Read(rd, binary.LittleEndian, &d.end64)
-		_ = binary.Read(rd, binary.LittleEndian, &d.loc64)
+		if err := binary.Read(rd, binary.LittleEndian, &d.end64); err != nil {
+			return nil, errTruncatedDir
+		}
+		if err := binary.Read(rd, binary.LittleEndian, &d.loc64); err != nil {
+			return nil, errTruncatedDir
+		}
 	case directoryEndSignature:
 	default:
 		return nil, errors.New("expected end record")
 	}
-	_ = binary.Read(rd, binary.LittleEndian, &d.end)
+	if err := binary.Read(rd, binary.LittleEndian, &d.end); err != nil {
+		return nil, errTruncatedDir
+	}
 	return d, nil
 }
 
